@@ -551,6 +551,33 @@ theorem C02_macro_ui_only_touches_starters (ui : List Nat) (starters : List Nat)
     simp only [Wiring.putUiFirst]
     exact ⟨h1.trans k1, h2.trans k2⟩
 
+/-! ## a state round trip (pickle, save + load, return from an executor) between wiring and running -/
+
+/-- ROUND TRIP KEEPS THE FLOW: for every wiring among the children (mirror image; `sigs` = their emitting channels, each
+once), `__getstate__` + `__setstate__` give every emitter its receivers back IN THE SAME ORDER and every receiving channel
+the same set of emitters — so the queue discipline prescribes the same execution before and after -/
+theorem C02_roundtrip_keeps_firing_order (w : Wiring) (hm : w.Mir) (children : List Nat) (sigs : List Sig)
+    (hn : sigs.Nodup) (hc : ∀ s r, r ∈ w.out s → r.node ∈ children ∧ s ∈ sigs) :
+    (∀ s, (w.roundtrip false children sigs).out s = w.out s) ∧
+    (∀ r s, s ∈ (w.roundtrip false children sigs).inList r ↔ s ∈ w.inList r) :=
+  roundtrip_spec w hm children sigs hn hc
+
+example : (abcWiring.roundtrip false [0, 1, 2] (List.range 12)).out (sigRan 0) = abcWiring.out (sigRan 0) := by decide
+
+/-- `a >> b` then `a >> c` among children created in the order a, b, c: `a.ran` reaches c (the newest) first -/
+def acbWiring : Wiring :=
+  (Wiring.empty.connect (sigRan 0) { node := 1, acc := false }).connect (sigRan 0) { node := 2, acc := false }
+
+/-- SEEDED CHANGE C02-4 (the firing order "derived" from the receiving-side list, i.e. child order): `a.ran → [c, b]`
+comes back as `[b, c]`; the flow that ran a, c, b runs a, b, c after the round trip -/
+theorem C02_roundtrip_transposed_witness :
+    acbWiring.out (sigRan 0) = [{ node := 2, acc := false }, { node := 1, acc := false }] ∧
+    (acbWiring.roundtrip true [0, 1, 2] (List.range 12)).out (sigRan 0) = [{ node := 1, acc := false }, { node := 2, acc := false }] ∧
+    (compositeRun (nodeSem termNodes) ((acbWiring.roundtrip false [0, 1, 2] (List.range 12)).toGraph id [0] (List.range 12)) 100
+      (S.init Store.init (fun _ => []))).fired = [0, 2, 1] ∧
+    (compositeRun (nodeSem termNodes) ((acbWiring.roundtrip true [0, 1, 2] (List.range 12)).toGraph id [0] (List.range 12)) 100
+      (S.init Store.init (fun _ => []))).fired = [0, 1, 2] := by decide +kernel
+
 end PwVerif.C02
 
 #print axioms PwVerif.C02.C02_any
@@ -582,3 +609,5 @@ end PwVerif.C02
 #print axioms PwVerif.C02.C02_macro_reorders_witness
 #print axioms PwVerif.C02.C02_macro_order_repaired
 #print axioms PwVerif.C02.C02_macro_ui_only_touches_starters
+#print axioms PwVerif.C02.C02_roundtrip_keeps_firing_order
+#print axioms PwVerif.C02.C02_roundtrip_transposed_witness
